@@ -108,6 +108,13 @@ func verifAt(point string, args ...interface{}) {
 				conv[i] = vv
 			case internalKey:
 				conv[i] = []byte(x)
+			case *tSet:
+				// level and file number of the table a lookup remembered first (-1, -1: none)
+				if x == nil {
+					conv[i] = [2]int64{-1, -1}
+				} else {
+					conv[i] = [2]int64{int64(x.level), x.table.fd.Num}
+				}
 			default:
 				conv[i] = a
 			}
